@@ -645,10 +645,46 @@ func TestC22(t *testing.T) {
 		if i%(len(cases)/4+1) == 0 {
 			res.AddSample(map[string]interface{}{"gran": c.Gran, "seed": c.Seed, "behaviour": c.Beh})
 		}
-		record(c, r)
 	}, func(i int, v interface{}, stack string) {
 		res.SetInconclusive(fmt.Sprintf("harness panic: %v\n%s", v, stack))
 	})
+	// A failure seen while all workers compete for the machine is re-run alone before it is
+	// reported: every symptom here involves a deadline, and a deadline missed because the
+	// process was starved is not a disagreement of the code with the specification. (The
+	// check replays every reported failure once more in a fresh process.)
+	reran := 0
+	for i, r := range results {
+		if r.harness != "" {
+			record(cases[i], r)
+			continue
+		}
+		if r.fail == nil {
+			continue
+		}
+		if reran < 24 {
+			reran++
+			ResetWaitBudget()
+			attempts := 1
+			if cases[i].Gran == "free" {
+				attempts = 10
+			}
+			var again caseResult
+			for a := 0; a < attempts; a++ {
+				again = runCase(cases[i], nil)
+				if again.fail != nil || again.harness != "" {
+					break
+				}
+			}
+			if again.fail == nil && again.harness == "" {
+				res.Cover("failure_not_reproduced_when_run_alone:" + r.fail.Match["symptom"])
+				results[i] = again
+				continue
+			}
+			results[i] = again
+			r = again
+		}
+		record(cases[i], r)
+	}
 	// traces and the cases they came from, for binding B (checks/c22.py runs TLC on them)
 	if p := os.Getenv("VERIF_TRACE_OUT"); p != "" {
 		limit := behav.EnvInt("VERIF_TRACE_MAX", 400)
